@@ -264,6 +264,9 @@ class Exec:
         self.used_models: set[str] = set()
         self.current_fn = ""
         self._resolving: set[str] = set()
+        # module-level names that some function of the module rebinds through a `global` statement: they are STATE (read from the heap,
+        # with an arbitrary value at function entry), not constants
+        self.mutable_globals = {n for st in ast.walk(self.tree) if isinstance(st, ast.Global) for n in st.names}
 
     # ---------------------------------------------------------------- helpers
     def fresh(self, prefix, sort):
@@ -556,12 +559,35 @@ class Exec:
             return self.try_stmt(st, ctx)
         if isinstance(st, ast.Match):
             return self.match_stmt(st, ctx)
-        if isinstance(st, (ast.Global, ast.Nonlocal)):
+        if isinstance(st, ast.Global):
+            ctx.env["__globals_decl__"] = set(ctx.env.get("__globals_decl__", ())) | set(st.names)
+            return [(ctx, None)]
+        if isinstance(st, ast.Nonlocal):
             return [(ctx, None)]
         raise GenError(f"unsupported statement {type(st).__name__} at line {st.lineno}")
 
+    def global_value(self, name, ctx: Ctx):
+        key = "__global__:" + name
+        if key not in ctx.heap:
+            init = self.globals.get(name)
+            if isinstance(init, bool):
+                ctx.heap[key] = self.fresh(f"global_{name}", z3.BoolSort())
+            elif isinstance(init, int):
+                ctx.heap[key] = self.fresh(f"global_{name}", z3.IntSort())
+            elif isinstance(init, Fraction):
+                ctx.heap[key] = self.fresh(f"global_{name}", z3.RealSort())
+            elif isinstance(init, str):
+                ctx.heap[key] = self.fresh(f"global_{name}", z3.StringSort())
+            else:
+                raise GenError(f"module-level name {name!r} is rebound through `global`; its type is not modelled")
+        return ctx.heap[key]
+
     def assign(self, tgt, v, ctx: Ctx):
         if isinstance(tgt, ast.Name):
+            if tgt.id in ctx.env.get("__globals_decl__", ()):
+                self.global_value(tgt.id, ctx)  # type check of the state variable
+                ctx.heap["__global__:" + tgt.id] = v
+                return [(ctx, None)]
             ctx.env[tgt.id] = v
             return [(ctx, None)]
         if isinstance(tgt, (ast.Tuple, ast.List)):
@@ -869,6 +895,8 @@ class Exec:
             return [(ctx, v)]
         if e.id in ctx.heap:
             return [(ctx, ("__heap__", e.id))]
+        if e.id in self.mutable_globals:
+            return [(ctx, self.global_value(e.id, ctx))]
         if e.id in self.globals:
             return [(ctx, self.globals[e.id])]
         # a module-level constant NAME = <expression>, assigned exactly once at module level: evaluate its defining expression
